@@ -68,6 +68,13 @@ def expressions(rnd, n_deep):
                        {"k": "dy", "op": "*", "a": lit(I(2)), "b": red}, {"k": "mo", "op": "-", "a": red},
                        {"k": "dy", "op": "-", "a": red, "b": {"k": "ad", "adv": "over", "op": "+", "a": b}}]
     out += nested
+    # comparisons as BOTH operands of an arithmetic operator (truth values must be numbers, not booleans)
+    cmps = [{"k": "dy", "op": ">", "a": a, "b": lit(I(1))}, {"k": "dy", "op": "<", "a": a, "b": b}, {"k": "dy", "op": "=", "a": a, "b": b}]
+    for op in ("+", "*", "-"):
+        for c1 in cmps:
+            for c2 in cmps:
+                out.append({"k": "dy", "op": op, "a": c1, "b": c2})
+    out.append({"k": "ad", "adv": "over", "op": "+", "a": {"k": "dy", "op": "+", "a": cmps[0], "b": cmps[1]}})
     deep = []
     while len(deep) < n_deep:
         k = rnd.random()
